@@ -224,40 +224,13 @@ D15R = 'backfilling: final notification of a task placed before its pilot was re
 CTR  = ('add_pilots document contradicts a final state already notified '
         '(ValueError from _pilot_state_progress leaves the pilot half added)')
 STALE = 'pilot added with a document older than the state already notified or added'
-HALF  = ('%s: %s command names a pilot it cannot be applied to %s a valid one '
-         '(ValueError, the command is left half applied)')
 OTHER = 'other history'
 POLICY_NAME = {'RR': 'RoundRobin', 'BF': 'Backfilling'}
-
-
-def half_valid(trace):
-    '''first command which names a pilot it cannot be applied to and raised:
-       (kind, position of the first such entry relative to a valid one)'''
-    role = {p: 'none' for p in trace['pilots']}
-    for e in trace['events']:
-        if e['ev'] == 'AddPilots':
-            ps  = [p for p, _ in e['add']]
-            bad = [i for i, p in enumerate(ps) if role[p] == 'added']
-            if bad and len(bad) < len(ps) and e['raised'] == 'ValueError':
-                return 'add', 'after' if bad[0] > 0 else 'before'
-            for p in ps:
-                role[p] = 'added'
-        elif e['ev'] == 'RemovePilots':
-            bad = [i for i, p in enumerate(e['pids']) if role[p] != 'added']
-            if bad and len(bad) < len(e['pids']) and e['raised'] == 'ValueError':
-                return 'remove', 'after' if bad[0] > 0 else 'before'
-            for p in e['pids']:
-                if role[p] == 'added':
-                    role[p] = 'removed'
-    return None
 
 
 def classify(trace, clause):
     '''history class of a failing trace (for known-findings matching)'''
     evs = trace['events']
-    hv = half_valid(trace)
-    if hv:
-        return HALF % (POLICY_NAME[trace['policy']], hv[0], hv[1])
     if any(e['ev'] == 'AddPilots' and e['raised'] == 'ValueError' for e in evs):
         return CTR
     if clause == 'C12.ForwardOnce':
@@ -320,16 +293,19 @@ def _validate(chk, items, report=True):
     chk.states += st['states']
     chk.transitions += st['transitions']
     chk.cmds.append(st['cmd'])
-    found, model_dev = [], 0
+    found, model_dev, outside = [], 0, {}
     for (cfg, ops, tr, kind), errs in zip(items, res):
         chk.traces += 1
         if _interesting(tr):
             chk.nontrivial.add(hash((tr['policy'], tuple((e['ev'], len(e['fwd'])) for e in tr['events']))))
-        bad = [e for e in errs if e.startswith('M.') and e != 'M.Conformance']
+        bad = [e for e in errs if e.startswith('M.') and e != 'M.Conformance' and not e.startswith('N.')]
         if bad:
             raise Machinery('tmgr rig / monitor inconsistency %s on %s' % (bad, ops))
         if 'M.Conformance' in errs:
             model_dev += 1
+        for err in errs:
+            if err.startswith('N.'):
+                outside[err] = outside.get(err, 0) + 1
         for err in errs:
             if err.split('.')[0] == chk.pid:
                 found.append((len(ops), err, classify(tr, err), cfg, ops, errs, kind))
@@ -337,6 +313,11 @@ def _validate(chk, items, report=True):
         chk.notes.append('%d of %d traces: some callback of the real scheduler matched the design '
                          'model under no setting of the known deviations (M.Conformance)'
                          % (model_dev, len(items)))
+    if outside:
+        # not producible through the task manager: reported, never alarming
+        chk.notes.append('outside the input space (a command names a pilot it cannot be applied to; '
+                         'the task manager refuses such commands before publishing): '
+                         + ', '.join('%s in %d histories' % kv for kv in sorted(outside.items())))
     # shortest history first: the replay file of a (clause, class) is its smallest witness
     for n, err, cls, cfg, ops, errs, kind in sorted(found, key=lambda x: (x[0], x[1])):
         if report:
